@@ -58,14 +58,44 @@ Section World.
     linesearch : nat -> E -> list E -> E;
     ls_orth : forall f x0 ds, has_ls f = true ->
       let x := linesearch f x0 ds in
-      inner (vsub x x0) (fst (orc f x)) = 0 /\ forall d, In d ds -> inner d (fst (orc f x)) = 0
+      inner (vsub x x0) (fst (orc f x)) = 0 /\ forall d, In d ds -> inner d (fst (orc f x)) = 0;
+    (* epsilon-subgradients: [epssub f x0] = ((g0, eps), (y, fy)) is what an epsilon-subgradient oracle returns at
+       x0: a vector g0 and an accuracy eps, together with a point y at which g0 is an (exact) subgradient and the
+       value fy there, i.e. the conjugate of f at g0 is <g0, y> - fy.  Specification: (y, g0, fy) is a genuine
+       sample and f(x0) + f^*(g0) - <g0, x0> <= eps, f(x0) being the oracle's value at x0 (for a convex function
+       this says exactly that g0 is an eps-subgradient at x0: C08's theorems eps_subgrad_from_record /
+       eps_subgrad_to_record).  Every world has one (the oracle's own output, eps = 0, y = x0), so no flag. *)
+    epssub : nat -> E -> (E * R) * (E * R);
+    epssub_spec : forall f x0,
+      let g0 := fst (fst (epssub f x0)) in let eps := snd (fst (epssub f x0)) in
+      let y := fst (snd (epssub f x0)) in let fy := snd (snd (epssub f x0)) in
+      Gen f (y, g0, fy) /\ snd (orc f x0) + (inner g0 y - fy) - inner g0 x0 <= eps;
+    (* mirror maps (Bregman gradient steps): [mirror h s] is the point at which the mirror map h has gradient s (the
+       minimiser of <g0, .> + 1/gamma D_h(.; x0) when s = grad h(x0) - gamma g0: C08's theorem
+       bregman_gradient_optimality) together with the value of h there; specification: that point with s is a
+       genuine sample of h *)
+    has_mirror : nat -> bool;
+    mirror : nat -> E -> E * R;
+    mirror_genuine : forall h s, has_mirror h = true -> Gen h (fst (mirror h s), s, snd (mirror h s));
+    (* Bregman proximal steps: [bprox h f gamma s0] = ((x, gx), (fx, hx)) is the minimiser x of
+       f + 1/gamma D_h(.; x0), s0 = grad h(x0), the subgradient gx of f at x singled out by the optimality condition
+       grad h(x) = s0 - gamma gx (C08's theorem bregman_prox_optimality) and the values of f and h at x;
+       specification: (x, gx, fx) is a genuine sample of f and (x, s0 - gamma gx, hx) one of h *)
+    has_bprox : nat -> nat -> bool;
+    bprox : nat -> nat -> R -> E -> (E * E) * (R * R);
+    bprox_genuine : forall h f gamma s0, has_bprox h f = true -> 0 < gamma ->
+      let x := fst (fst (bprox h f gamma s0)) in let gx := snd (fst (bprox h f gamma s0)) in
+      Gen f (x, gx, fst (snd (bprox h f gamma s0))) /\
+      Gen h (x, vsub s0 (vscal gamma gx), snd (snd (bprox h f gamma s0)))
   }.
 
-  (** the program takes proximal / linear-optimization / line-search steps only on functions of the world that
-      have a proximal operator / a linear minimisation oracle / an exact line search *)
+  (** the program takes proximal / linear-optimization / line-search / Bregman steps only on functions of the world
+      that have a proximal operator / a linear minimisation oracle / an exact line search / a mirror map inverse / a
+      Bregman proximal operator *)
   Definition step_ok (W : world) (o : mop) : bool :=
     match o with
-    | MProx f _ _ => has_prox W f | MLinOpt f _ => has_lmo W f | MLineSearch f _ _ => has_ls W f | _ => true
+    | MProx f _ _ => has_prox W f | MLinOpt f _ => has_lmo W f | MLineSearch f _ _ => has_ls W f
+    | MBregGrad h _ _ _ => has_mirror W h | MBregProx h f _ _ => has_bprox W h f | _ => true
     end.
   Definition steps_ok (W : world) (ops : list mop) : bool := forallb (step_ok W) ops.
 
@@ -103,6 +133,24 @@ Section World.
         let x := linesearch W f (evalP (fst vs) x0) (map (evalP (fst vs)) dirs) in
         (upd (upd (fst vs) (m_np s) x) (S (m_np s)) (fst (orc W f x)),
          upd (snd vs) (m_ne s) (snd (orc W f x)))
+    | MEpsSub f p =>
+        (* the fresh leaf g0 gets the epsilon-subgradient, then as MEval at p, the fresh value leaf epsilon gets the
+           accuracy, the fresh leaves y and fy the point where the conjugate is attained and the value there *)
+        let x := evalP (fst vs) p in
+        let r := epssub W f x in
+        (upd (upd (upd (fst vs) (m_np s) (fst (fst r))) (S (m_np s)) (fst (orc W f x))) (S (S (m_np s))) (fst (snd r)),
+         upd (upd (upd (snd vs) (m_ne s) (snd (orc W f x))) (S (m_ne s)) (snd (fst r))) (S (S (m_ne s))) (snd (snd r)))
+    | MBregGrad h gx0 sx0 gamma =>
+        (* the fresh point leaf gets the point where the mirror map has gradient sx0 - gamma gx0, the fresh value
+           leaf the value of the mirror map there *)
+        let sd := vsub (evalP (fst vs) sx0) (vscal (Q2R gamma) (evalP (fst vs) gx0)) in
+        (upd (fst vs) (m_np s) (fst (mirror W h sd)), upd (snd vs) (m_ne s) (snd (mirror W h sd)))
+    | MBregProx h f sx0 gamma =>
+        (* the fresh leaves x, gx get the Bregman proximal point and the subgradient of f there, the fresh value
+           leaves the values of f and of the mirror map there *)
+        let r := bprox W h f (Q2R gamma) (evalP (fst vs) sx0) in
+        (upd (upd (fst vs) (m_np s) (fst (fst r))) (S (m_np s)) (snd (fst r)),
+         upd (upd (snd vs) (m_ne s) (fst (snd r))) (S (m_ne s)) (snd (snd r)))
     end.
 
   Fixpoint wrun (W : world) (ops : list mop) (s : mstate) (vs : (nat -> E) * (nat -> R))
